@@ -1337,7 +1337,11 @@ func ruleSpecCanPutOrder(c *Ctx, r *R) {
 	for fn := range cands {
 		// anchors: the inherited lookup, and the prototype == nil test
 		var lookups []ssa.Instruction
-		var nilEdges []*ssa.BasicBlock // blocks entered only when prototype == nil
+		type edge struct {
+			from *ssa.BasicBlock
+			to   int
+		}
+		nilEdges := map[edge]bool{} // CFG edges taken only when prototype == nil
 		for _, b := range fn.Blocks {
 			for _, ins := range b.Instrs {
 				if call, ok := ins.(*ssa.Call); ok {
@@ -1362,9 +1366,7 @@ func ruleSpecCanPutOrder(c *Ctx, r *R) {
 							if cmp.Op == token.NEQ {
 								side = 1
 							}
-							if s := b.Succs[side]; len(s.Preds) == 1 {
-								nilEdges = append(nilEdges, s)
-							}
+							nilEdges[edge{b, side}] = true
 						}
 					}
 				}
@@ -1374,27 +1376,41 @@ func ruleSpecCanPutOrder(c *Ctx, r *R) {
 			r.undecided("unresolved:"+ssaFuncName(fn)+":lookup", c.Pos(fn.Pos()), "UNRESOLVED: no inherited lookup obj.prototype.getProperty(...) in the [[CanPut]] implementation")
 			continue
 		}
-		n := 0
+		isLookup := map[ssa.Instruction]bool{}
+		for _, l := range lookups {
+			isLookup[l] = true
+		}
+		// instructions reachable from entry on a path that neither performs the inherited lookup nor takes a
+		// prototype == nil edge
+		early := map[ssa.Instruction]bool{}
+		seen := map[*ssa.BasicBlock]bool{}
+		var dfs func(b *ssa.BasicBlock)
+		dfs = func(b *ssa.BasicBlock) {
+			if seen[b] {
+				return
+			}
+			seen[b] = true
+			for _, ins := range b.Instrs {
+				if isLookup[ins] {
+					return
+				}
+				early[ins] = true
+			}
+			for i, s := range b.Succs {
+				if !nilEdges[edge{b, i}] {
+					dfs(s)
+				}
+			}
+		}
+		dfs(fn.Blocks[0])
 		for _, b := range fn.Blocks {
 			for _, ins := range b.Instrs {
 				ld, ok := ins.(*ssa.UnOp)
 				if !ok || ld.Op != token.MUL || !isFieldAddr(ld.X, "object", "extensible") {
 					continue
 				}
-				n++
-				okDom := false
-				for _, l := range lookups {
-					if dominatesInstr(l, ld) {
-						okDom = true
-					}
-				}
-				for _, e := range nilEdges {
-					if e.Dominates(ld.Block()) {
-						okDom = true
-					}
-				}
 				key := fmt.Sprintf("%s:extensible", ssaFuncName(fn))
-				r.check(okDom, key, c.Pos(instrPos(ld)), "read after the inherited lookup or under prototype == nil", "§8.12.4: object.extensible is read before the inherited property has been looked up (and not under prototype == nil): a non-extensible (sealed, frozen) object then answers from the flag although an inherited accessor's setter must decide (step 7)")
+				r.check(!early[ld], key, c.Pos(instrPos(ld)), "read only after the inherited lookup or under prototype == nil", "§8.12.4: object.extensible can be read on a path that has neither looked up the inherited property nor established prototype == nil: a non-extensible (sealed, frozen) object then answers from the flag although an inherited accessor's setter must decide (step 7)")
 			}
 		}
 	}
